@@ -253,6 +253,9 @@ def build_harness():
         if os.path.lexists(link):
             os.remove(link)
         os.symlink(REPO, link)
+        # another source tree: cargo's mtime-based freshness check may keep the chrono objects of
+        # the previous tree (e.g. an older checkout after a newer scratch copy), so drop them
+        sh('cargo clean --release --offline -p chrono', cwd=hdir, timeout=300)
     lock = os.path.join(hdir, 'Cargo.lock')
     if not os.path.exists(lock):
         shutil.copy(os.path.join(REPO, 'Cargo.lock'), lock)
